@@ -59,8 +59,17 @@ def gen_planned(rng):
     horizon = rng.choice([2, tpb, 2 * tpb + 1, 4 * tpb])
     for _ in range(rng.choice([0, 1, 1, 2, 3])):
         c = rng.randint(0, horizon)
-        k = rng.choice(["mute", "unmute", "mute", "unschedule", "unschedule", "clear", "reschedule", "schedule"])
+        k = rng.choice(["mute", "unmute", "mute", "unschedule", "unschedule", "clear", "reschedule", "schedule", "mute-reschedule"])
         t = rng.randrange(4)
+        if k == "mute-reschedule":
+            # mute a named track, then schedule under its name again (which must unmute it and restart its count)
+            named = [(i, info["name"]) for i, (_, _, info) in enumerate(plan) if info["kind"] == "schedule" and info["name"] is not None]
+            if not named:
+                continue
+            t, nm = rng.choice(named)
+            plan.append((c, ["mute", t], {"kind": "mute", "t": t}))
+            sched(c + rng.randint(0, horizon), name=nm, replace=True)
+            continue
         if k in ("mute", "unmute", "unschedule"):
             plan.append((c, [k, t], {"kind": k, "t": t}))
             if k == "mute" and rng.random() < 0.6:
